@@ -485,6 +485,10 @@ func main() {
 		fmt.Fprintln(os.Stderr, "usage: registry|cases|one")
 		os.Exit(2)
 	}
+	if os.Args[1] == "consts" {
+		constsCmd(os.Args[2], os.Args[3])
+		return
+	}
 	u = tlh.Build(scanned)
 	switch os.Args[1] {
 	case "registry":
